@@ -720,6 +720,14 @@ def c19(res, tier, seed, lib):
         rc3, out3, _ = run_cli(["color"] + ["-"] * len(texts), stdin="".join(t + "\n" for t in texts).encode())
         res.case("same " + repr(texts))
         res.check(rc1 == rc2 == rc3 == 0 and out1 == out2 == out3, "args-stdin-dash-identical", "cli:io", repr(texts), "%r %r %r" % (out1[:80], out2[:80], out3[:80]))
+        # the same with a blank / unparsable entry somewhere: arguments and stdin lines must agree on
+        # exit status and stdout (the error text may differ in surrounding blanks only)
+        kk = rnd.randrange(len(texts) + 1)
+        junk = rnd.choice(["", " ", "nope", "\t"])
+        withjunk = texts[:kk] + [junk] + texts[kk:]
+        ra = run_cli(["format", "hex"] + withjunk)
+        rs = run_cli(["format", "hex"], stdin="".join(t + "\n" for t in withjunk).encode())
+        res.check(ra[0] == rs[0] and ra[1] == rs[1], "args-stdin-identical-with-bad-entry", "cli:io", repr(withjunk), "args: rc=%s %r; stdin: rc=%s %r" % (ra[0], ra[1][:80], rs[0], rs[1][:80]))
         # a bad colour in the middle: complete lines for the ones before, error names it, exit 1
         k = rnd.randrange(len(texts) + 1)
         bad = bad_color_text(rnd).strip() or "nope"
